@@ -134,6 +134,8 @@ func (p *Program) checkResize() {
 		return
 	}
 
+	verifPause("checkResize: size read")
+
 	p.Send(WindowSizeMsg{
 		Width:  w,
 		Height: h,
